@@ -255,7 +255,7 @@ def run(ctx):
     else:
         for c in corpus:
             runs.append(("corpus-" + c[:-4], 0, os.path.join(vlib.VERIF, "corpus", "C18", c)))
-        runs.append(("fresh", 1500 if quick else 40000, None))
+        runs.append(("fresh", 1200 if quick else 30000, None))
 
     all_mism, all_fail, total, hist_all, stats_all, distinct, samples = [], [], 0, {}, {}, set(), []
     for sub, n, rfile in runs:
